@@ -30,9 +30,9 @@ type rec struct {
 	data []byte
 }
 
-func (r *rec) GetKey() blockdb.Key          { return blockdb.Key(r.key) }
-func (r *rec) Encode(w io.Writer) error     { _, err := w.Write(r.data); return err }
-func (r *rec) Decode(rd io.Reader) error    { b, err := io.ReadAll(rd); r.data = b; return err }
+func (r *rec) GetKey() blockdb.Key            { return blockdb.Key(r.key) }
+func (r *rec) Encode(w io.Writer) error       { _, err := w.Write(r.data); return err }
+func (r *rec) Decode(rd io.Reader) error      { b, err := io.ReadAll(rd); r.data = b; return err }
 func (recProvider) NewRecord() blockdb.Record { return &rec{} }
 
 type recProvider struct{}
@@ -88,6 +88,9 @@ func shapes(tier string) []shape {
 		{Name: "min-4", L: 2, K: 4, KeyStyle: "fixed", FixedKeys: []string{"bb", "dd", "ff", "hh"}, Payload: "tagged", MaxPayload: 8, Compress: true, Header: true},
 		{Name: "empty", L: 4, K: 0, KeyStyle: "fixed", Payload: "tagged", MaxPayload: 8, Header: true},
 		{Name: "hash-1", L: 64, K: 1, KeyStyle: "hex", Payload: "tagged", MaxPayload: 300, Compress: true, Header: true},
+		{Name: "len-118", L: 118, K: 3, KeyStyle: "hex", Payload: "tagged", MaxPayload: 40},
+		{Name: "len-119", L: 119, K: 1, KeyStyle: "hex", Payload: "tagged", MaxPayload: 40}, // int8 key length: 127 is the largest the API and the .idx format admit
+		{Name: "len-127", L: 127, K: 1, KeyStyle: "hex", Payload: "tagged", MaxPayload: 40},
 	}
 	n := 42
 	if tier == "thorough" {
@@ -299,6 +302,35 @@ func reopen(base string, s shape, kind string) (*blockdb.BlockDB, *hdr, error) {
 		return nil, nil, err
 	}
 	return db, h, nil
+}
+
+// safeReopen is reopen under the logical bound and with panics recovered; a panic or hang on the complete,
+// untouched files is reported here (nil database returned), an error is returned to the caller.
+func safeReopen(run *mon.Run, b *built, kind string) (*blockdb.BlockDB, *hdr, error) {
+	var db *blockdb.BlockDB
+	var h *hdr
+	fmt.Printf("OP open shape=%s index=%s\n", b.sh.Name, kind)
+	o := bounded(func() ([]byte, error) {
+		d, hh, err := reopen(b.base, b.sh, kind)
+		db, h = d, hh
+		return nil, err
+	})
+	switch {
+	case o.hung:
+		hangVerdict(run, "C26:blockdb-open-hang", b, kind, "open", "", 0)
+	case o.panicked:
+		sig := "C26:blockdb-open-panic"
+		if b.sh.L > 118 {
+			sig = "C26:blockdb-keylen-over-118-open-panic"
+		}
+		w := witness(b, kind, "open", "")
+		w["panic"] = o.pval
+		w["stack"] = firstLines(o.stack, 14)
+		run.Violate(sig, fmt.Sprintf("Open of a database written and saved without error panicked (%s): %s", o.pval, describeKeys(b)), w)
+		run.Distinct(strings.Join([]string{"blockdb", b.sh.class(), "nofault", kind, "open", "panic"}, "|"))
+		return nil, nil, errors.New("open panicked: " + o.pval)
+	}
+	return db, h, o.err
 }
 
 // ---------------------------------------------------------------------------------------------------------------
@@ -792,10 +824,17 @@ func judgeCrashState(run *mon.Run, b *built, dir string, cs cstate, n int) {
 // children
 
 // roundTrip judges the complete database: header, every stored key (both index kinds), ReadAll.
-func roundTrip(run *mon.Run, b *built) {
+func roundTrip(run *mon.Run, b *built) (openable bool) {
+	openable = true
 	for _, kind := range []string{"fixed", "map"} {
-		db, h, err := reopen(b.base, b.sh, kind)
+		db, h, err := safeReopen(run, b, kind)
+		run.Eval(1)
+		run.Count("blockdb_opens", 1)
 		if err != nil {
+			openable = false
+			if db == nil && strings.HasPrefix(err.Error(), "open panicked") {
+				continue // already reported
+			}
 			w := witness(b, kind, "open", "")
 			w["error"] = err.Error()
 			run.Violate("C26:blockdb-readback-mismatch", fmt.Sprintf("Open after Save failed (%v) on %s", err, describeKeys(b)), w)
@@ -827,7 +866,7 @@ func roundTrip(run *mon.Run, b *built) {
 		}
 		_ = db.Close()
 		// ReadAll on a freshly opened database returns the records in write order
-		db, _, err = reopen(b.base, b.sh, kind)
+		db, _, err = safeReopen(run, b, kind)
 		if err != nil {
 			continue
 		}
@@ -864,6 +903,7 @@ func roundTrip(run *mon.Run, b *built) {
 		}
 		_ = db.Close()
 	}
+	return openable
 }
 
 func childSweep(run *mon.Run, tier string, idx, n int) {
@@ -887,9 +927,14 @@ func childSweep(run *mon.Run, tier string, idx, n int) {
 			sampled++
 			run.Sample(map[string]interface{}{"store": "blockdb", "shape": s, "keys_sorted": hexList(b.sorted), "dat_bytes": len(b.dat), "idx_bytes": len(b.idx), "record_ends": b.datEnds})
 		}
-		roundTrip(run, b)
+		if !roundTrip(run, b) {
+			// the complete database cannot be opened (reported above): crash states of it have nothing to add
+			os.RemoveAll(dir)
+			run.Checkpoint()
+			continue
+		}
 		// absent keys through the map index (reopened database with SetIndex(map index))
-		if db, _, err := reopen(b.base, b.sh, "map"); err == nil {
+		if db, _, err := safeReopen(run, b, "map"); err == nil {
 			lks := absentKeys(b, false)
 			for i, lk := range lks {
 				judgeAbsent(run, b, db, "map", lk, len(lks)-i-1)
@@ -930,7 +975,7 @@ func childAbsent(run *mon.Run, tier string, idx, n int) {
 			os.RemoveAll(dir)
 			continue
 		}
-		db, _, err := reopen(b.base, b.sh, "fixed")
+		db, _, err := safeReopen(run, b, "fixed")
 		if err != nil {
 			// judged by the sweep child; here only the lookups matter
 			os.RemoveAll(dir)
